@@ -40,6 +40,7 @@ type c12Spec struct {
 	Sync      bool
 	Dev       int
 	Big       bool // too large for preemption bounding in the quick tier
+	Expiry    bool // write faults include "the write deadline has passed"; caller 0 carries a context deadline
 }
 
 type c12State struct {
@@ -103,6 +104,17 @@ func c12Scenario(sp c12Spec) *explore.Scenario {
 						st.srv.Write(refcodec.EncodeFrame(tag, a.Msg))
 					case "bytes":
 						st.srv.Write(a.Raw)
+					case "reply+bytes": // the proper reply to request Arg and more bytes in ONE write
+						if a.Arg < len(reqs) {
+							w := reqs[a.Arg]
+							m, err := resultFor(p9p.MessageTread{Fid: p9p.Fid(w.ID)})
+							if err != nil {
+								m = p9p.MessageRerror{Ename: enameOf(err)}
+							}
+							delete(st.unanswered, w.Tag)
+							answered[a.Arg] = true
+							st.srv.Write(append(refcodec.EncodeFrame(w.Tag, m), a.Raw...))
+						}
 					case "close":
 						st.srv.Close()
 						closed = true
@@ -133,6 +145,7 @@ func c12Scenario(sp c12Spec) *explore.Scenario {
 				return st
 			}
 			st.cli.SetFaulty(spec.FaultR, spec.FaultW)
+			st.cli.ExpiryFaults = spec.Expiry
 			if spec.CancelAll {
 				vsched.Go("cancel-session", func() { st.cancel() })
 			}
@@ -142,7 +155,16 @@ func c12Scenario(sp c12Spec) *explore.Scenario {
 				res := &callResult{ID: i * 10}
 				st.calls = append(st.calls, res)
 				vsched.Go(fmt.Sprintf("caller%d", i), func() {
-					st.call(context.Background(), res)
+					ctx := context.Background()
+					if spec.Expiry && i == 0 {
+						// a per-call deadline (it never fires by itself: time
+						// does not pass inside an execution; its expiry is the
+						// connection's "deadline passed" answer)
+						var cancel context.CancelFunc
+						ctx, cancel = context.WithDeadline(ctx, time.Now().Add(time.Hour))
+						defer cancel()
+					}
+					st.call(ctx, res)
 					if i == 0 {
 						firstDone = true
 					}
@@ -176,6 +198,7 @@ func c12Check(state any, e *vsched.Exec) (string, []explore.Finding) {
 		bad("panic", "the client process would crash: %s\n%s", panicList(e), e.Panics[0].Stack)
 	}
 	if e.Horizon {
+		bad("call-hangs:livelock", "the step horizon was reached: the client keeps retrying for ever (last moves: %s)", strings.Join(lastN(e.Trace, 6), " ; "))
 		return "horizon", fs
 	}
 	if st.sessErr != nil {
@@ -240,6 +263,12 @@ func c12Specs() []c12Spec {
 		{Name: "read-faults-1", Pending: 1, Late: true, FaultR: true, Dev: 1},
 		{Name: "write-faults", Pending: 2, Late: true, FaultW: true, Dev: 1},
 		{Name: "write-faults-sync", Pending: 2, FaultW: true, Dev: 1, Sync: true},
+		{Name: "write-deadline-expiry", Pending: 2, Late: true, FaultW: true, Expiry: true, Dev: 1},
+		{Name: "coalesced/reply+prefix-0", Pending: 1, Late: true, Script: []srvAct{rd(), {Op: "reply+bytes", Arg: 0, Raw: []byte{0, 0, 0, 0}}}},
+		{Name: "coalesced/reply+prefix-3", Pending: 1, Late: true, Script: []srvAct{rd(), {Op: "reply+bytes", Arg: 0, Raw: []byte{3, 0, 0, 0}}}},
+		{Name: "coalesced/reply+garbage-type", Pending: 1, Late: true, Script: []srvAct{rd(), {Op: "reply+bytes", Arg: 0, Raw: []byte{7, 0, 0, 0, 250, 1, 0}}}},
+		{Name: "coalesced/reply+short-body", Pending: 1, Late: true, Script: []srvAct{rd(), {Op: "reply+bytes", Arg: 0, Raw: []byte{9, 0, 0, 0, 117, 1, 0, 9, 9}}}},
+		{Name: "coalesced/reply+unknown-tag", Pending: 1, Late: true, Script: []srvAct{rd(), {Op: "reply+bytes", Arg: 0, Raw: refcodec.EncodeFrame(999, p9p.MessageRclunk{})}}, Expect: map[int]string{0: "own", 90: "own"}},
 		{Name: "session-cancel", Pending: 2, Late: true, CancelAll: true, Big: true},
 		{Name: "session-cancel-1", Pending: 1, Late: true, CancelAll: true},
 	}
@@ -395,4 +424,11 @@ func c12(c *core.Ctx) {
 	wt := c12WrongTypeAll()
 	plans = append(plans, Plan{Sc: wt, Delay: true, Max: 2})
 	runPlans(c, plans)
+}
+
+func lastN(s []string, n int) []string {
+	if len(s) > n {
+		return s[len(s)-n:]
+	}
+	return s
 }
